@@ -177,7 +177,7 @@ def replay_impl_call(call):
     assert call['fn'] == 'trackpy.link_iter'
     sr = call['search_range']
     sr = tuple(Fraction(x) for x in sr) if isinstance(sr, list) else Fraction(sr)
-    frames = [np.array(f, dtype=float).reshape(len(f), -1) for f in call['frames']]
+    frames = frames_from_json(call['frames'])
     ad = tuple(Fraction(x) for x in call['adaptive']) if call.get('adaptive') else None
     try:
         run_link_iter(frames, sr, memory=call['memory'], link_strategy=call['link_strategy'], max_size=call['max_size'],
@@ -251,6 +251,53 @@ def run_link_iter(frames, sr, memory=0, link_strategy=None, max_size=None, adapt
         Linker.MAX_SUB_NET_SIZE, Linker.MAX_SUB_NET_SIZE_ADAPTIVE = old
     return out
 
+
+
+def run_linker_reused(first, frames, sr, memory=0, link_strategy=None, max_size=None):
+    """ONE trackpy Linker object driven by hand: through the movie `first` (init_level + next_level), then re-initialised
+    with init_level for `frames`; returns the label lists of `frames` (None at the step that raised SubnetOversizeException).
+    What the linker remembers of the first movie must be gone after init_level."""
+    from trackpy.linking.linking import Linker
+    from trackpy.linking.utils import SubnetOversizeException
+    old = (Linker.MAX_SUB_NET_SIZE, Linker.MAX_SUB_NET_SIZE_ADAPTIVE)
+    if max_size is not None:
+        Linker.MAX_SUB_NET_SIZE = max_size
+        Linker.MAX_SUB_NET_SIZE_ADAPTIVE = max_size
+    out = []
+    try:
+        lk = Linker(sr_float(sr), memory=memory, link_strategy=link_strategy)
+        try:
+            if len(first):
+                lk.init_level(first[0].copy(), 0)
+                for t, f in enumerate(first[1:], start=1):
+                    lk.next_level(f.copy(), t)
+        except SubnetOversizeException:
+            pass
+        try:
+            lk.init_level(frames[0].copy(), 0)
+            out.append([int(i) for i in lk.particle_ids])
+            for t, f in enumerate(frames[1:], start=1):
+                lk.next_level(f.copy(), t)
+                out.append([int(i) for i in lk.particle_ids])
+        except SubnetOversizeException:
+            out.append(None)
+        except Exception as e:
+            raise ImplError(e, dict(fn='Linker.init_level / next_level on a reused Linker', first=[np.asarray(f).tolist() for f in first],
+                                    frames=[np.asarray(f).tolist() for f in frames], search_range=[str(x) for x in sr] if isinstance(sr, tuple) else str(sr),
+                                    memory=memory, link_strategy=link_strategy, max_size=max_size, labels_before_the_failure=out))
+    finally:
+        Linker.MAX_SUB_NET_SIZE, Linker.MAX_SUB_NET_SIZE_ADAPTIVE = old
+    return out
+
+
+def frames_from_json(lists, ndim=None):
+    """per-frame coordinate arrays from the nested lists of a replay file; a frame without features is [] there and must
+    come back as an array of shape (0, ndim)"""
+    arrs = [np.array(f, dtype=float) for f in lists]
+    if ndim is None:
+        nds = [a.shape[1] for a in arrs if a.ndim == 2 and a.size]
+        ndim = max(nds) if nds else 2
+    return [a.reshape(len(a), ndim) if a.size else np.empty((0, ndim)) for a in arrs]
 
 import contextlib
 
